@@ -312,6 +312,8 @@ Definition new_link (sub : bool) (name : str) (lid : option str) (ltype : str) (
   id <- id_or_draw lid ;;
   guard (negb (len_is ifs 0)) ETopology ;;;
   check_name KLink name ;;;
+  (* add_network_link_sliver: every interface must be in the graph before the Link node is added (fix b5829c4) *)
+  for_each ifs (fun i => props i ;;; ret tt) ;;;
   add_node (mk id KLink (Some ltype) name false) ;;;
   for_each ifs (fun i => add_link id Connects i) ;;;
   ret id.
@@ -320,6 +322,10 @@ Definition new_link (sub : bool) (name : str) (lid : option str) (ltype : str) (
 Definition connect_interface (sub : bool) (s : str) (i : str) : M unit :=
   ni <- props i ;;
   iname <- name_prop ni ;;
+  (* the same guardrails as for interfaces passed to the constructor (fix 7b9c57b) *)
+  l2ptp <- type_is s sL2PTP ;;
+  shared0 <- type_is i sSharedPort ;;
+  guard (negb (l2ptp && shared0)) ETopology ;;;
   o <- owner_of_iface 4 i ;;
   match o with
   | None => raise ETopology
@@ -333,18 +339,19 @@ Definition connect_interface (sub : bool) (s : str) (i : str) : M unit :=
       ret tt
   end.
 
-(* NetworkService(NEW) with interfaces: guardrails, connect, rollback on TopologyException (:100-115) *)
+(* NetworkService(NEW) with interfaces: guardrails, connect, rollback on any exception (:100-119, fix 16ce105) *)
 Fixpoint connect_all (sub : bool) (s : str) (nstype : str) (todo done : list str) : M unit :=
   match todo with
   | [] => ret tt
   | i :: r =>
-      try_topology
+      try_any
         (shared <- type_is i sSharedPort ;;
          guard (negb (str_eqb nstype sL2PTP && shared)) ETopology ;;;
          connect_interface sub s i)
-        (for_each done disconnect_interface ;;;
+        (fun e =>
+         for_each done disconnect_interface ;;;
          remove_ns_with_cps_and_links s ;;;
-         raise ETopology) ;;;
+         raise e) ;;;
       connect_all sub s nstype r (done ++ [i])
   end.
 
@@ -491,6 +498,8 @@ Definition opt_app (o : option str) (suffix : str) : option str :=
    empty interface cache that add_interface never extends: no name check among the facility's interfaces. *)
 Definition t_add_facility (sub : bool) (name : str) (nid : option str) (ifnames : option (list str)) : M unit :=
   n <- t_add_node sub name nid sFacility ;;
+  (* the facility is a single construct: a rejected later step removes what was built (fix 2982a89) *)
+  try_any (
   s <- node_add_ns n (name ++ S "-ns") (opt_app nid (S "-ns")) sVLAN ;;
   match ifnames with
   | None | Some [] =>
@@ -503,7 +512,7 @@ Definition t_add_facility (sub : bool) (name : str) (nid : option str) (ifnames 
              ns_add_interface sub s [] x (opt_app nid (S "-int" ++ nat_str k)) sFacilityPort true ;;;
              go r (Datatypes.S k)
          end) l O
-  end.
+  end) (fun e => remove_network_node n ;;; raise e).
 
 (* Topology.add_switch (topology.py:296) *)
 Definition t_add_switch (sub : bool) (name : str) (nid : option str) (nports : nat) : M unit :=
@@ -525,15 +534,21 @@ Definition t_remove_link (name : str) : M unit :=
   remove_network_link l.
 
 (* Topology.remove_network_service (topology.py:385) *)
-Definition t_remove_ns (name : str) : M unit :=
+Definition t_remove_ns (hint : list str) (name : str) : M unit :=
   s <- find_node_by_name name KNS ;;
   fresh_ns_cache s ;;;
+  (* disconnect what the service's own ports are connected to or peered with (fix 18b6247) *)
+  ifs <- cps_of_ns_or_link s ;;
+  disconnect_loop hint ifs ;;;
   remove_ns_with_cps_and_links s.
 
 (* Node.remove_network_service (node.py:362) *)
-Definition node_remove_ns (n : str) (name : str) : M unit :=
+Definition node_remove_ns (hint : list str) (n : str) (name : str) : M unit :=
   ss <- nss_of n ;;
   s <- find_by_name_lazy ss name ;;
+  fresh_ns_cache s ;;;
+  ifs <- cps_of_ns_or_link s ;;
+  disconnect_loop hint ifs ;;;
   remove_ns_with_cps_and_links s.
 
 (* NetworkService.peer (network_service.py:408): both handles are fresh *)
@@ -543,9 +558,12 @@ Definition ns_peer (sub : bool) (a b : str) : M unit :=
   ca <- fresh_ns_cache a ;;
   cb <- fresh_ns_cache b ;;
   ia <- ns_add_interface sub a ca (an ++ dash ++ bn) None sServicePort false ;;
-  ib <- ns_add_interface sub b cb (bn ++ dash ++ an) None sServicePort false ;;
-  new_link sub (an ++ dash ++ bn ++ S "-link") None sL2Path [ia; ib] ;;;
-  ret tt.
+  (* peering is all or nothing (fix 1e03994) *)
+  try_any
+    (ib <- ns_add_interface sub b cb (bn ++ dash ++ an) None sServicePort false ;;
+     try_any (new_link sub (an ++ dash ++ bn ++ S "-link") None sL2Path [ia; ib] ;;; ret tt)
+             (fun e => remove_cp_and_links ib true ;;; raise e))
+    (fun e => remove_cp_and_links ia true ;;; raise e).
 
 (* ---- shortest path for unpeer (networkx.shortest_path on the extracted graph) --------------------------------- *)
 Definition all_nbrs (g : graph) (x : str) : list str := map fst (nbrs g x).
@@ -581,7 +599,11 @@ Definition ns_unpeer (a b : str) : M unit :=
       let firsts := filter (fun x => dist_is gc b x 3) (dedup (all_nbrs gc a)) in
       let lasts := filter (fun y => dist_is gc a y 3) (dedup (all_nbrs gc b)) in
       match firsts, lasts with
-      | [x], [y] => remove_cp_and_links x true ;;; remove_cp_and_links y true
+      | [x], [y] =>
+          (* both ends of a peering link are service ports (fix 0d94156) *)
+          tx <- type_is x sServicePort ;; guard tx ETopology ;;;
+          ty <- type_is y sServicePort ;; guard ty ETopology ;;;
+          remove_cp_and_links x true ;;; remove_cp_and_links y true
       | _, _ => raise EAmbiguous
       end
   | _ => raise ETopology
@@ -691,9 +713,9 @@ Definition run_op (sub : bool) (hint : list str) (o : op) : M unit :=
   | OAddPM name sid to =>
       (* add_port_mirror_service exists on ExperimentTopology only (topology.py:794) *)
       need KCP to ;;; guard (negb sub) EAttribute ;;; t_add_ns sub name sid sPortMirror [to]
-  | ORemoveNS name => t_remove_ns name
+  | ORemoveNS name => t_remove_ns hint name
   | ONodeAddNS n name sid nstype => need KNode n ;;; node_add_ns n name sid nstype ;;; ret tt
-  | ONodeRemoveNS n name => need KNode n ;;; node_remove_ns n name
+  | ONodeRemoveNS n name => need KNode n ;;; node_remove_ns hint n name
   | OAddLink name lid ltype ifs => for_each ifs (need KCP) ;;; t_add_link sub name lid ltype ifs
   | ORemoveLink name => t_remove_link name
   | OConnect s i => need KNS s ;;; need KCP i ;;; connect_interface sub s i
